@@ -41,9 +41,13 @@ fn main() {
     wire::self_test();
     let args: Vec<String> = std::env::args().collect();
     let out = std::io::stdout();
-    let mut out = std::io::BufWriter::new(out.lock());
+    // line-buffered on purpose: the watchdog writes its `=> hang` line straight to descriptor 1
+    let mut out = out.lock();
+    util::start_watchdog();
     let mut emit = |req: String| {
+        util::watch(&req);
         let ans = exec_line(&req);
+        util::unwatch();
         writeln!(out, "{} => {}", req, ans).unwrap();
     };
     match args.get(1).map(|s| s.as_str()) {
@@ -81,7 +85,7 @@ fn main() {
             let mut rng = rng::Rng::new(seed);
             for _ in 0..count { emit(daemon::gen_extract(&mut rng)); }
         }
-        Some("genall") => { drop(emit); shm::gen_all(|req, ans| { writeln!(out, "{} => {}", req, ans).unwrap(); }); }
+        Some("genall") => { drop(emit); util::watch("genall"); shm::gen_all(|req, ans| { writeln!(out, "{} => {}", req, ans).unwrap(); }); }
         Some("poll") => {
             let seed: u64 = args[2].parse().unwrap();
             let count: usize = args[3].parse().unwrap();
@@ -126,7 +130,11 @@ fn main() {
             let seed: u64 = args[2].parse().unwrap();
             let count: usize = args[3].parse().unwrap();
             drop(emit);
-            ra::generate(seed, count, |req, ans| { writeln!(out, "{} => {}", req, ans).unwrap(); });
+            // the scenario text is only known once a scenario has run: the watchdog names the generator call
+            // (re-armed after every scenario, so the limit is per scenario)
+            let tag = format!("slgen {} {}", seed, count);
+            util::watch(&tag);
+            ra::generate(seed, count, |req, ans| { writeln!(out, "{} => {}", req, ans).unwrap(); util::watch(&tag); });
         }
         Some("leapgrid") => { for g in daemon::leap_grid() { emit(g); } }
         Some("upd") => {
